@@ -119,7 +119,10 @@ class JnpLogPlugin(PrimitiveLeafPlugin):
 
         reduce_getter = getattr(x_val, "producer", lambda: None)
         reduce_node = reduce_getter() if callable(reduce_getter) else None
-        if getattr(reduce_node, "op_type", "") == "ReduceSum":
+        if (
+            getattr(reduce_node, "op_type", "") == "ReduceSum"
+            and (getattr(reduce_node, "domain", "") or "") == ""
+        ):
             reduce_inputs = list(getattr(reduce_node, "inputs", ()))
             reduce_attributes = getattr(reduce_node, "attributes", {})
             keepdims_attr = (
@@ -140,7 +143,11 @@ class JnpLogPlugin(PrimitiveLeafPlugin):
                 exp_getter = getattr(reduce_data, "producer", lambda: None)
                 exp_node = exp_getter() if callable(exp_getter) else None
                 exp_inputs = tuple(getattr(exp_node, "inputs", ()))
-                if getattr(exp_node, "op_type", "") == "Exp" and exp_inputs:
+                if (
+                    getattr(exp_node, "op_type", "") == "Exp"
+                    and (getattr(exp_node, "domain", "") or "") == ""
+                    and exp_inputs
+                ):
                     target_data = exp_inputs[0]
                     op_type = "ReduceLogSumExp"
                 else:
